@@ -796,7 +796,7 @@ def run(ctx):
     ctx.pmap(py_template_probe, [(ctx.seed, "python"), (ctx.seed, "numpy")])
     from harness import fuzz
 
-    fuzz.campaign(ctx, "C05", ["python", "numpy"], runs=500 if ctx.quick else 30000, workers=8 if ctx.quick else 16)
+    fuzz.campaign(ctx, "C05", ["python", "numpy"], runs=500 if ctx.quick else 15000, workers=8 if ctx.quick else 16)
 
 
 # ---- coverage-guided tier (harness/fuzz.py): python and numpy targets (a g++ run per case is too slow for libFuzzer)
